@@ -2267,6 +2267,19 @@ def _fold(op, a, b):
     """Fold integer arithmetic on literals (keeps counters readable)."""
     if is_c(a) and is_c(b) and type(a[1]) is int and type(b[1]) is int and op in ('+', '-', '*'):
         return C({'+': a[1] + b[1], '-': a[1] - b[1], '*': a[1] * b[1]}[op])
+    if op == '+' and (a[0] == 'tuple' or b[0] == 'tuple'):
+        # tuple concatenation with literal tuples / slices of a shape:  (n,) + x.shape[1:]  ==  (n, *x.shape[1:])
+        def parts(t):
+            if t[0] == 'tuple':
+                return list(t[1])
+            if t[0] == 'sub' and t[1][0] == 'attr' and t[1][2] == 'shape' and t[2][0] == 'slice':
+                return [('starred', t)]
+            if t[0] == 'call' and t[1] == 'builtins.tuple' and len(t[2]) == 1 and not t[3]:
+                return parts(t[2][0])
+            return None
+        pa, pb = parts(a), parts(b)
+        if pa is not None and pb is not None:
+            return ('tuple', tuple(pa + pb))
     return ('bin', op, a, b)
 
 
